@@ -15,6 +15,7 @@ import c_conv
 import c_xform
 import c_proj
 import c_metric
+import c_approx
 import re
 import sym
 
@@ -297,6 +298,33 @@ def unit_C11(src):
     return u
 
 
+def unit_C18(src):
+    u = Unit('C18', src, 'R')
+    lib, F = full_base(u, 'Rad')
+    c_conv.build(lib, F)
+    u.spec_texts.append(lib.text())
+    u.spec_texts.append(c_conv.text_specs())
+    u.spec_texts.append(c_approx.text_specs())
+    rh, rp = c_rot.shape_hints(F)
+    u.contract_fns.insert(0, c_rot.contracts(rh, 'Rad'))
+    c_rot.select_c06(u)
+    hints, polys = c_conv.shape_hints(F)
+    u.contract_fns.insert(0, c_conv.contracts(hints, 'Rad'))
+    c_conv.select(u)
+    u.contract_fns.insert(0, c_approx.contracts)
+    c_approx.select(u)
+    u.assoc_fix.update({'Sc::Epsilon': 'Sc', 'A_::Epsilon': 'Sc', 'V_::Scalar': 'Sc'})
+    u.extra_prelude.append('verus! {\npub type A_ = Rad<Sc>;\npub type R_ = Quaternion<Sc>;\npub type V_ = Vector3<Sc>;\n}\n')
+    is_apx = lambda im: trait_name_of(im) in ('AbsDiffEq', 'RelativeEq', 'UlpsEq')
+    u.scoped_subst.append((lambda im: is_apx(im) and 'Euler' in im.header, {'A': 'A_'}))
+    u.scoped_subst.append((lambda im: is_apx(im) and 'Decomposed' in im.header, {'S': 'V_', 'R': 'R_', 'E': 'Sc'}))
+    own = lambda im, f: im is not None and (is_apx(im) or f.name in ('is_finite', 'is_identity', 'is_invertible', 'is_diagonal', 'is_symmetric')
+                                            or (f.name == 'is_zero' and 'Vector' not in im.header))
+    u.assume_pred = lambda im, f: not own(im, f)
+    u.lemma_texts.append(c_approx.handwritten())
+    return u
+
+
 def trait_name_of(im):
     from emit import trait_name
     return trait_name(im.trait)
@@ -314,7 +342,7 @@ def build_C03(src, tier):
     return [unit_C03(src, 'R')]
 
 
-UNITS = {'C11': lambda src, tier: [unit_C11(src)], 'C10': lambda src, tier: [unit_C10(src, 'Rad'), unit_C10(src, 'Deg')], 'C08': lambda src, tier: [unit_C08(src, 'q'), unit_C08(src, 'b3'), unit_C08(src, 'b2')], 'C05': lambda src, tier: [unit_conv(src, 'C05', 'Rad')], 'C07': lambda src, tier: [unit_conv(src, 'C07', 'Rad'), unit_conv(src, 'C07', 'Deg')], 'C06': lambda src, tier: [unit_C06(src, 'Rad'), unit_C06(src, 'Deg')], 'C13': lambda src, tier: [unit_C13(src, 'R')], 'C04': lambda src, tier: [unit_C04(src, 'R')], 'C02': lambda src, tier: [unit_C02(src, 'R'), unit_C02t(src)], 'C01': lambda src, tier: [unit_C01(src, 'R'), unit_C01t(src, 'R')], 'C03': build_C03, 'C12': lambda src, tier: [unit_C12(src, 'R')]}
+UNITS = {'C18': lambda src, tier: [unit_C18(src)], 'C11': lambda src, tier: [unit_C11(src)], 'C10': lambda src, tier: [unit_C10(src, 'Rad'), unit_C10(src, 'Deg')], 'C08': lambda src, tier: [unit_C08(src, 'q'), unit_C08(src, 'b3'), unit_C08(src, 'b2')], 'C05': lambda src, tier: [unit_conv(src, 'C05', 'Rad')], 'C07': lambda src, tier: [unit_conv(src, 'C07', 'Rad'), unit_conv(src, 'C07', 'Deg')], 'C06': lambda src, tier: [unit_C06(src, 'Rad'), unit_C06(src, 'Deg')], 'C13': lambda src, tier: [unit_C13(src, 'R')], 'C04': lambda src, tier: [unit_C04(src, 'R')], 'C02': lambda src, tier: [unit_C02(src, 'R'), unit_C02t(src)], 'C01': lambda src, tier: [unit_C01(src, 'R'), unit_C01t(src, 'R')], 'C03': build_C03, 'C12': lambda src, tier: [unit_C12(src, 'R')]}
 import kani_driver
 KANI = kani_driver.GROUPS
 META = {
